@@ -641,7 +641,9 @@ def check_C12(tier, seed):
     if res.harness_ok and res.model_ok:
         impl = {b: run_hx(["events", b], lines) for b in ("str", "iter")}
         disp = run_hx(["display"], lines)
-        marked = {t: run_hx(["load", t, "eager+spans"], lines) for t in ("marked", "markedowned")}
+        # node spans must not depend on the loading mode: eager, deferred (early_parse(false)) and deferred-then-resolved
+        marked = {t + ("" if mode == "eager" else "/" + mode): run_hx(["load", t, mode + "+spans"], lines)
+                  for t in ("marked", "markedowned") for mode in ("eager", "deferred", "resolved")}
         model = run_mx(["events", "str"], lines)
         nmark = 0
         import re
